@@ -177,7 +177,9 @@ def run(ctx):
         elif v == "TimedOut":
             st = tr.timer_state(R.var0(R.timer))
             if st == "Idle":
-                quiet = not (tr.of("SEND") or tr.of("STEP") or tr.of("RELALL") or tr.of("SETTIMER") or tr.of("SETFLAG"))
+                # (`timer = match timer { Idle => Idle, .. }` writes Idle over Idle: not a change)
+                real_sets = [it for it in tr.of("SETTIMER") if tr.timer_state(it[3]) != "Idle"]
+                quiet = not (tr.of("SEND") or tr.of("STEP") or tr.of("RELALL") or real_sets or tr.of("SETFLAG"))
                 ck.ob("C10-R6", fn, "POLL:TimedOut+Idle->POLL-silently", s.dst == "POLL" and quiet,
                       detail=None if (s.dst == "POLL" and quiet) else "dst %s quiet %s" % (s.dst, quiet))
             if tr.of("STEP") or tr.of("RELALL"):
